@@ -764,8 +764,8 @@ pub fn property() -> Property {
         rule: "generated: 2-7 API-built rules with salience from {i32::MIN,-5,0,0,3,3,7,i32::MAX} (ties on purpose), enabled flag, no-loop, lock-on-active, agenda group in {MAIN,g1,g2}, activation group in {none,a1,a2}, date window on a 5-instant lattice; conditions flag==bool or constant true; actions trace(name) + flag assignments + ActivateAgendaGroup; histories of 3-8 steps from {execute_at_time(t strictly inside a lattice interval), execute() and execute_with_callback() at the real clock (which lies before the whole lattice), set_agenda_focus, activate_agenda_group (API), pop, clear, reset_no_loop_tracking, set_rule_enabled, flip a flag}; max_cycles 1..4; plus rule sets of 21-60 rules with 1-4 salience levels (an unstable sort only shows on slices > 20); plus exhaustive enumeration of a reduced attribute space for 3 rules x (execute, focus/reset step, execute). Oracle: model interpreter of the eligibility gate written from the statement (exact trace of every execute, rules_fired, active agenda group after every step). Returning to a group by pop/clear is not an activation (a lock-on-active rule that fired stays locked). Non-trivial: >= 2 executes and (salience tie with both firing, or activation-group contention with two true conditions, or a lock-on-active rule whose group was activated >= 2 times, or a rule suppressed by focus/date/enabled although its condition was true); distinct by structural hash of the case.",
         assumptions: vec!["date boundaries are excluded by construction (evaluation instants lie strictly inside lattice intervals)".into(), "rules_evaluated is not compared".into()],
         parts: vec![
-            Part { name: "random", run, quick: Budget::Random { cases: 1_000_000, bytes: 300 }, thorough: Budget::Random { cases: 5_000_000, bytes: 300 }, min_nontrivial_pct: 30 },
-            Part { name: "many-rules", run: run_many, quick: Budget::Random { cases: 60_000, bytes: 400 }, thorough: Budget::Random { cases: 300_000, bytes: 400 }, min_nontrivial_pct: 30 },
+            Part { name: "random", run, quick: Budget::Random { cases: 1_000_000, bytes: 300 }, thorough: Budget::Random { cases: 20_000_000, bytes: 300 }, min_nontrivial_pct: 30 },
+            Part { name: "many-rules", run: run_many, quick: Budget::Random { cases: 60_000, bytes: 400 }, thorough: Budget::Random { cases: 1_000_000, bytes: 400 }, min_nontrivial_pct: 30 },
             Part { name: "exh3", run, quick: Budget::Skip, thorough: Budget::Exhaustive { param: 1 }, min_nontrivial_pct: 0 },
         ],
         watchdog: true,
